@@ -87,3 +87,12 @@ Theorem C09_own_nonce_and_index :
          (INDX, u32le (N.of_nat i))].
 Proof. intros. unfold reply_msg. repeat eexists. Qed.
 Print Assumptions C09_own_nonce_and_index.
+
+(* ---- tie to the source: the integer literals of the functions this property's model stands for
+   (private constants, bounds, unit factors; the files are SiteMap.files_C09) are today the ones the
+   model was written against. Gen/Sites.v num_literals is regenerated from /repo on every run; a
+   changed, added or removed number in a modelled function breaks this obligation ---- *)
+Require RV.Gen.Sites RV.Model.SiteMap.
+Theorem C09_literals_reviewed : RV.Model.SiteMap.literals_ok RV.Model.SiteMap.files_C09.
+Proof. repeat constructor. Qed.
+Print Assumptions C09_literals_reviewed.
